@@ -126,6 +126,31 @@ def a1_loop_structure(ck):
             p = t["discr"].get("copy") or t["discr"].get("move")
             if p is not None and _root(tb, t["discr"]) == stop_root and bb in loop_blocks:
                 ck.req(bb1 in dom[bb] and bb2 in dom[bb], "A1.stop_after_both", "stop", b.where(t["line"]), "the early-stop flag is tested before both sides were evaluated")
+    # A1.exit_parity: the term loop is left only when the term list is exhausted or on the shared stop flag - both unchanged when
+    # `perspective` is swapped.  An exit that looks at the running result, an accumulator or the perspective stops the two
+    # perspectives after different numbers of terms.
+    succ = b.successors()
+    n_exit_fail = 0
+    res_root = None
+    if len(subs) == 1 and 'res_local' in dir():
+        res_root = res_local
+    for x in sorted(loop_blocks):
+        t = b.term(x)
+        outs = [s_ for s_ in succ[x] if s_ not in loop_blocks and not b.is_cleanup(s_)]
+        if not outs or t["k"] != "switch":
+            continue
+        c = tb.operand(t["discr"])
+        if c[0] == "discr" and any(x_[0] == "call" and is_iter_next(x_[1]) for x_ in walk(c)):
+            continue      # iterator exhausted
+        if _root(tb, t["discr"]) == stop_root:
+            continue      # shared stop flag
+        touched = [show(x_)[:40] for x_ in walk(c) if x_ == P or (x_[0] == "var" and x_[1] in set(accs) | ({res_root} if res_root is not None else set()))]
+        n_exit_fail += 1
+        ck.fail("A1.exit_parity", "loop exit@bb%d" % x, b.where(t.get("line")),
+                "the term loop can be left on %s, which is neither the end of the term list nor the shared stop flag%s: the two perspectives may sum a "
+                "different number of terms" % (show(c)[:100], (" (it reads %s)" % touched[:2]) if touched else ""))
+    if not n_exit_fail:
+        ck.ok("A1.exit_parity", "term loop", b.where(), "left only at the end of the term list or on the shared stop flag")
     ck.sample({"rule": "A1", "sides": sides, "term_fn": show(f1)[:120]})
 
 
